@@ -2,6 +2,7 @@ SPECIFICATION Spec
 INVARIANT EntityOK
 INVARIANT RevEntityOK
 INVARIANT EntProbeOK
+INVARIANT RevProbeOK
 INVARIANT ColourNameOK
 INVARIANT ColourHexOK
 INVARIANT ColourProbeOK
